@@ -158,6 +158,25 @@ def publish_once(ctx, prog, ex, f, st, name, K, viol, second=False, prior=0):
 
 
 
+def header_test(cid, L):
+    return API_PRELUDE + f"""
+#[test]
+fn verif_replay_c02_header() {{
+    let mut bad: Vec<String> = Vec::new();
+    for len in [{L}usize, 0, 1, 4088, u32::max_value() as usize, (u32::max_value() as usize) + 1, (1usize << 32) + 12345, 5 * (1usize << 32) + 7].iter() {{
+        let (mio_tx, rx) = mio_extras::channel::sync_channel(8);
+        let (_rtx, rrx) = crossbeam_channel::bounded::<crate::Result<crate::io_loop::ChannelMessage>>(2);
+        let mut h = IoLoopHandle::new({cid}, mio_tx, rrx);
+        let r = h.send_content_header(60, *len, &Default::default());
+        let got = raw_of(&rx);
+        let want = enc(&AMQPFrame::Header({cid}, 60, Box::new(amq_protocol::frame::AMQPContentHeader {{ class_id: 60, weight: 0, body_size: *len as u64, properties: Default::default() }})));
+        if r.is_err() || got.len() != 1 || got[0] != want {{ bad.push(format!("len={{}}", len)); }}
+    }}
+    if bad.is_empty() {{ println!("VERIF-REPLAY-OK"); }} else {{ println!("VERIF-REPLAY-VIOLATION publish-framing content-header-announces-another-size-for:{{}}", bad.join(",")); }}
+}}
+"""
+
+
 def replay_publish(ctx, prog, s, info, h, name, claim, prior):
     if name != 'p1':
         return   # the first publish of the pair is replayed on its own
@@ -173,7 +192,11 @@ def replay_publish(ctx, prog, s, info, h, name, claim, prior):
     nm = Namer(m)
     L, fmv, cid = nm.i(h['len']), nm.i(fm), nm.i(info['id'])
     if L > (1 << 24):
-        ctx.inconclusive.append(f"C02 counterexample needs a {L}-byte body: not replayed natively")
+        # a body this large cannot be materialised in a test: replay the part that does not need the bytes - the content header announced
+        # for a body of that length (IoLoopHandle::send_content_header is what send_content calls with body.len())
+        test = header_test(cid, L)
+        ctx.report('publish-framing', f"basic_publish(len={L}): the content header does not announce the body length (replayed at the header level: the body itself is too large to materialise)", {'len': L, 'frame_max': fmv, 'channel': cid}, test,
+                   inject_into='src/io_loop/channel_handle.rs', profiles=('dev',))
         return
     test = API_PRELUDE + f"""
 #[test]
